@@ -279,6 +279,9 @@ func run(r *core.Run) {
 	for _, kind := range kinds {
 		runChain(r, kind)
 	}
+
+	// ---- 4. whole rows: several protected typed columns through the real column loops ----
+	runRows(r)
 }
 
 // failure policies exercised on the read path for a kind of setting (all of them for encryption-only columns; the ones
